@@ -137,10 +137,12 @@ func genSubset(t *rapid.T, label string, from []string, maxN int) []string {
 func genSpecProject(t *rapid.T, maxServices int) specProject {
 	var sp specProject
 	n := rapid.IntRange(1, maxServices).Draw(t, "nservices")
-	resN := []string{"n0", "n1", "n2"}
-	resV := []string{"v0", "v1", "v2"}
-	resX := []string{"x0", "x1", "x2"}
-	resC := []string{"c0", "c1", "c2"}
+	// the four kinds are separate name spaces: the same key may name a network, a volume, a secret and a config
+	// (and a service)
+	resN := []string{"n0", "shared", "s0"}
+	resV := []string{"v0", "shared", "s0"}
+	resX := []string{"x0", "shared", "s0"}
+	resC := []string{"c0", "shared", "s0"}
 	sp.Networks = genSubset(t, "net", resN, 3)
 	sp.Volumes = genSubset(t, "vol", resV, 3)
 	sp.Secrets = genSubset(t, "sec", resX, 3)
